@@ -5,8 +5,8 @@
 (* it and raises TemplateNotFound exactly when none has it.                *)
 (*                                                                         *)
 (* A composition is a tree                                                 *)
-(*    [k |-> "leaf",   id]                       a loader with a fixed set *)
-(*                                               of templates (LeafHas[id])*)
+(*    [k |-> "leaf",   id]                       a loader with the set of  *)
+(*                                               templates has[id]         *)
 (*    [k |-> "choice", subs]                     ChoiceLoader(subs)        *)
 (*    [k |-> "prefix", delim, keys, subs]        PrefixLoader({keys[j]:    *)
 (*                                               subs[j]}, delim)          *)
@@ -31,9 +31,11 @@ CONSTANTS Comps,      \* set of [id |-> n, t |-> tree]: the compositions
           LeafHas     \* leaf id -> set of names it has
 
 VARIABLES c, tree, name, stack, ret, asked,    \* c = id of the composition, tree = the composition
-          want                               \* what the abstract layer says for (tree, name): [res, asked, cands]
+          want,                              \* what the abstract layer says for (tree, name): [res, asked, cands]
+          has                                \* leaf id -> set of names it has NOW (= LeafHas here; LoaderSession.tla,
+                                             \* which extends this module, lets it change between two lookups)
 
-vars == <<c, tree, name, stack, ret, asked, want>>
+vars == <<c, tree, name, stack, ret, asked, want, has>>
 
 None == <<"none">>
 NF == <<"TemplateNotFound">>
@@ -64,7 +66,7 @@ Candidates(t, n) ==
       [] t.k = "prefix" -> IF RouteIdx(t, n) = 0 THEN <<>>
                            ELSE Candidates(t.subs[RouteIdx(t, n)], RouteRest(t, n))
 
-Has(cand) == cand[2] \in LeafHas[cand[1]]
+Has(cand) == cand[2] \in has[cand[1]]
 
 AbstractResult(t, n) ==
     LET cs == Candidates(t, n)
@@ -86,6 +88,7 @@ Pop == SubSeq(stack, 1, Len(stack) - 1)
 SetTopI(k) == [stack EXCEPT ![Len(stack)].i = k]
 
 Init ==
+    /\ has = LeafHas
     /\ \E comp \in Comps : c = comp.id /\ tree = comp.t
     /\ name \in NameSet
     /\ want = [res |-> AbstractResult(tree, name), asked |-> AbstractAsked(tree, name),
@@ -96,34 +99,34 @@ Init ==
 
 LeafLookup ==
     /\ stack # <<>> /\ Top.t.k = "leaf" /\ ret = None
-    /\ ret' = IF Top.n \in LeafHas[Top.t.id] THEN Src(Top.t.id, Top.n) ELSE NF
+    /\ ret' = IF Top.n \in has[Top.t.id] THEN Src(Top.t.id, Top.n) ELSE NF
     /\ asked' = Append(asked, <<Top.t.id, Top.n>>)
     /\ stack' = Pop
-    /\ UNCHANGED <<c, tree, name, want>>
+    /\ UNCHANGED <<c, tree, name, want, has>>
 
 \* for loader in self.loaders: try: return loader.get_source(...)
 ChoiceTry ==
     /\ stack # <<>> /\ Top.t.k = "choice" /\ ret = None /\ Top.i < Len(Top.t.subs)
     /\ stack' = Append(SetTopI(Top.i + 1), Frame(Top.t.subs[Top.i + 1], Top.n, Top.pre))
-    /\ UNCHANGED <<c, tree, name, ret, asked, want>>
+    /\ UNCHANGED <<c, tree, name, ret, asked, want, has>>
 
 \* except TemplateNotFound: pass   (the loop goes on with ChoiceTry / ChoiceExhausted)
 ChoiceCatch ==
     /\ stack # <<>> /\ Top.t.k = "choice" /\ ret = NF
     /\ ret' = None
-    /\ UNCHANGED <<c, tree, name, stack, asked, want>>
+    /\ UNCHANGED <<c, tree, name, stack, asked, want, has>>
 
 ChoiceReturn ==
     /\ stack # <<>> /\ Top.t.k = "choice" /\ ret # None /\ ret # NF
     /\ stack' = Pop
-    /\ UNCHANGED <<c, tree, name, ret, asked, want>>
+    /\ UNCHANGED <<c, tree, name, ret, asked, want, has>>
 
 \* raise TemplateNotFound(template) after the loop
 ChoiceExhausted ==
     /\ stack # <<>> /\ Top.t.k = "choice" /\ ret = None /\ Top.i = Len(Top.t.subs)
     /\ ret' = NF
     /\ stack' = Pop
-    /\ UNCHANGED <<c, tree, name, asked, want>>
+    /\ UNCHANGED <<c, tree, name, asked, want, has>>
 
 \* prefix, name = template.split(self.delimiter, 1); loader = self.mapping[prefix]
 PrefixRoute ==
@@ -133,7 +136,7 @@ PrefixRoute ==
            rest == RouteRest(Top.t, Top.n)
            cut == SubSeq(Top.n, 1, Len(Top.n) - Len(rest))
        IN stack' = Append(SetTopI(1), Frame(Top.t.subs[j], rest, Top.pre \o cut))
-    /\ UNCHANGED <<c, tree, name, ret, asked, want>>
+    /\ UNCHANGED <<c, tree, name, ret, asked, want, has>>
 
 \* ValueError (no delimiter) / KeyError (unknown prefix) -> TemplateNotFound
 PrefixNoRoute ==
@@ -141,13 +144,13 @@ PrefixNoRoute ==
     /\ RouteIdx(Top.t, Top.n) = 0
     /\ ret' = NF
     /\ stack' = Pop
-    /\ UNCHANGED <<c, tree, name, asked, want>>
+    /\ UNCHANGED <<c, tree, name, asked, want, has>>
 
 \* result of the delegate, or its TemplateNotFound re-raised with the full name
 PrefixReturn ==
     /\ stack # <<>> /\ Top.t.k = "prefix" /\ ret # None /\ Top.i = 1
     /\ stack' = Pop
-    /\ UNCHANGED <<c, tree, name, ret, asked, want>>
+    /\ UNCHANGED <<c, tree, name, ret, asked, want, has>>
 
 Done ==
     /\ stack = <<>> /\ ret # None
